@@ -10,7 +10,7 @@
     whatever the other direction is doing meanwhile.  That no error is reported under timely
     processing is explored by the duplex campaign (harness/props/C10.py). *)
 From IsoTp Require Import Base.Prelude Model.Micro Model.Joint Spec.ConfigSpec Proofs.Inv Proofs.FsmProps Proofs.DuplexP
-  Model.Pdu Proofs.WireP Proofs.JointP Proofs.JointProcP Proofs.TokenP.
+  Model.Pdu Proofs.WireP Proofs.JointP Proofs.JointProcP Proofs.TokenP Proofs.MailboxP.
 
 Theorem C10_tx_preserves_rx : forall c allowed s, rxv (tr_s (process_tx_main c allowed s)) = rxv s.
 Proof. exact tx_preserves_rx. Qed.
@@ -37,6 +37,17 @@ Theorem C10_user_calls : forall c s g size t,
   (rxv (fst (send c s g size t)) = rxv s /\ last_fc (fst (send c s g size t)) = last_fc s) /\
   (txv (fst (recv s)) = txv s /\ last_fc (fst (recv s)) = last_fc s).
 Proof. exact user_calls. Qed.
+
+(** The end of a transfer in one direction - success, protocol error, timeout, or the user's stop_sending() / stop_receiving() -
+    leaves the other direction alone: ending a transmission touches nothing of the reception in progress (state, buffer, announced
+    length, counters, the Flow Control still owed, its deadline, delivered payloads), of the limiter window or of the queue; ending a
+    reception touches nothing of the transmission in progress (state, request, queue, standby frame, grant, counters, timers). *)
+Theorem C10_stop_calls : forall b s,
+  (receiver_part (fst (stop_sending b s)) = receiver_part s /\ limiter_part (fst (stop_sending b s)) = limiter_part s /\
+   tx_queue (fst (stop_sending b s)) = tx_queue s /\ last_fc (fst (stop_sending b s)) = last_fc s) /\
+  (sender_core (stop_receiving s) = sender_core s /\ limiter_part (stop_receiving s) = limiter_part s /\
+   rx_queue (stop_receiving s) = rx_queue s).
+Proof. intros b s. exact (conj (stop_sending_keeps_reception b s) (stop_receiving_keeps_transmission s)). Qed.
 
 (** No state is reachable - under any interleaving - in which a transfer is in progress and
     nothing can end the wait: a transmitter that is not idle has its deadline or pacing timer
@@ -90,6 +101,7 @@ Print Assumptions C10_rx_preserves_tx.
 Print Assumptions C10_fc_only_mailbox.
 Print Assumptions C10_fc_answer_pass.
 Print Assumptions C10_user_calls.
+Print Assumptions C10_stop_calls.
 Print Assumptions C10_no_wedge.
 Print Assumptions C10_both_directions.
 Print Assumptions C10_only_deadline_errors.
